@@ -95,7 +95,7 @@ def op_table(W, model):
     T["action"] = (2, lambda a, b: action(a, b), lambda a, b: bf.s_action(model, a, b))
     T["Adjoint"] = (1, lambda a: Adjoint(a), lambda a: bf.s_adjoint(model, a))
     T["adjoint"] = (1, lambda a: adjoint(a), lambda a: bf.s_adjoint(model, a))
-    for cn in ("f", "g"):
+    for cn in ("f", "g", "f2"):
         T[f"derivative[{cn}]"] = (1, (lambda cn: lambda a: expand_derivatives(derivative(a, W[cn])))(cn),
                                   (lambda cn: lambda a: bf.s_derivative(model, a, W[cn]))(cn))
     T["expand"] = (1, lambda a: expand_derivatives(a), lambda a: a)
@@ -282,6 +282,23 @@ def specs(tier):
             if tier == "thorough":
                 for cp2 in comps:
                     add((op, cp, cp2))
+    # level 3: derivatives / expansion of weighted sums whose components vanish selectively (weights must stay aligned
+    # with the surviving components)
+    oneV = [("Action", "MVV", "f"), ("Action", "MVU", "g"), "cV", "cV2", ("Action", "MVV", "f2"), "LV"]
+    for top in ("derivative[f]", "derivative[g]", "expand"):
+        for a_, b_ in itertools.permutations(oneV, 2):
+            for fs in ("FormSum[2,c]", "FormSum[1,-3]"):
+                add((top, (fs, a_, b_)))
+        for a_, b_, c_ in itertools.permutations(oneV[:4], 3):
+            add((top, ("FormSum[2,1,-3]", a_, b_, c_)))
+    # the same with scalar-valued (0-form) actions, the only Actions UFL differentiates (left operand a 1-form)
+    zero_forms = [("Action", "cV", "f"), ("Action", "cV2", "f2"), ("Action", "cU", "g"), ("Action", "cV2", "f"), "J"]
+    for top in ("derivative[f]", "derivative[g]", "derivative[f2]", "expand"):
+        for a_, b_ in itertools.permutations(zero_forms, 2):
+            for fs in ("FormSum[2,c]", "FormSum[1,-3]"):
+                add((top, (fs, a_, b_)))
+        for a_, b_, c_ in itertools.permutations(zero_forms[:4], 3):
+            add((top, ("FormSum[2,1,-3]", a_, b_, c_)))
     if tier != "thorough":
         for op in ("add", "Action", "action", "FormSum[1,-3]", "FormSum[2,c]"):
             for cp, cp2 in itertools.product(comps[:14], repeat=2):
